@@ -321,7 +321,20 @@ func (e *Enc) callSiteHooks(in *ssa.Call, site, short string, args []ssa.Value, 
 			}
 		}
 		env := &Env{e: e, st: st, old: &e.entry, vars: vars, at: in}
-		o := e.oblige("assert", fmt.Sprintf("@call:%s#%d:%s", short, ord, shorten(a.C.Src)), in.Pos(), env.formula(a.C.E))
+		// an assertion that speaks of a call site not executed before this point is false here, not an engine error
+		f := func() (f string) {
+			defer func() {
+				if r := recover(); r != nil {
+					if _, ok := r.(unreachedSite); ok {
+						f = "false"
+						return
+					}
+					panic(r)
+				}
+			}()
+			return env.formula(a.C.E)
+		}()
+		o := e.oblige("assert", fmt.Sprintf("@call:%s#%d:%s", short, ord, shorten(a.C.Src)), in.Pos(), f)
 		o.Owned = true
 		o.Clause = a.C
 	}
@@ -1174,3 +1187,6 @@ func (e *Enc) mathOp(in *ssa.Call, callee *ssa.Function, argv []*Val) bool {
 	}
 	return false
 }
+
+// unreachedSite is the panic value of resultof("site#n") when that call has not been executed before the point of evaluation.
+type unreachedSite string
